@@ -168,6 +168,24 @@ CHECKS["C15"] = dict(
     technique="must-lockset dataflow with parameter binding and wrapper summaries + access-site classification of every static-storage object",
     design="3/C15")
 
+
+CHECKS["C14"] = dict(
+    text="Decides the memory-safety, protocol-agreement, confidentiality and passivity clauses on all paths of the control interface: (R1) a char[] field of a "
+         "request taken from the wire reaches a C-string consumer only after a terminator was stored or found by a bounded search; (R2) every write of the "
+         "server side (ctl.c, common_ctl.c) and of the client library is within its buffer - bounded-write analysis with the session-table and "
+         "attribute-count invariants checked at every store, and requirements followed through the attribute enumeration callbacks to the roots of the "
+         "program; (R3) no assertion in the request path depends on quantities a client or the attribute set controls unless the guards imply it; "
+         "(R4) every request handler stores the reply type on every path with enumerators of its own request and the client function for that request "
+         "accepts exactly those - whichever request comes first on a session; (R5) both functions that copy attribute values into replies consult "
+         "is_sensitive() and leave no value on the sensitive edge, and the filter names every attribute whose setter stores its value as sensitive; "
+         "(R6) nothing reachable from ctl_process (function pointers resolved) is an attribute setter, a transport data/lifecycle op or a store to "
+         "connection state, and ctl_process is errno-transparent (derived), with a positive control; (R7) close passes owner=true which reaches "
+         "unlink. Not decided: equality of replies with in-process values (the 512-byte value field makes large attributes unrepresentable by "
+         "design - they are left out), concurrency of sessions at run time.",
+    note=TRUSTED + " Two table entries of R2 rest on premises re-checked on every run (element copy into the session table; no writer of num_clients reachable from process_client).",
+    technique="typestate exploration + bounded-write dataflow with record invariants + enum/table agreement + call-graph reachability",
+    design="3/C14")
+
 NOT_APPLICABLE = {}
 
 
